@@ -20,7 +20,7 @@ func (e *enc) effCtx() *effCtx {
 }
 
 // BuildUnit encodes one function under contract.
-func BuildUnit(P *Program, key string, profile string) (*Unit, error) {
+func BuildUnit(P *Program, key string, profile string, prop string) (*Unit, error) {
 	fn := P.Funcs[key]
 	if fn == nil {
 		return nil, fmt.Errorf("no function %s in the loaded code", key)
@@ -32,7 +32,7 @@ func BuildUnit(P *Program, key string, profile string) (*Unit, error) {
 	if fn.Blocks == nil {
 		return nil, fmt.Errorf("%s has no body", key)
 	}
-	e := &enc{P: P, S: newSorts(), famSort: map[string]string{}, profile: profile, notes: map[string]bool{}, trusted: map[string]bool{},
+	e := &enc{P: P, S: newSorts(), famSort: map[string]string{}, profile: profile, prop: prop, notes: map[string]bool{}, trusted: map[string]bool{},
 		inlined: map[string]bool{}, callees: map[string]bool{}, unitName: key, names: map[string]int{}, globals: map[string]Term{},
 		funcRefs: map[string]Term{}, fnByRef: map[string]interface{}{}, logicals: map[string]TV{}, closByRef: map[string]*closureVal{},
 		inlineBusy: map[*ssa.Function]bool{}, rootFC: fc}
@@ -140,21 +140,21 @@ func BuildUnit(P *Program, key string, profile string) (*Unit, error) {
 			e.oblig("post", "post:"+lbl, c.Props, exitReach, tv.T, fmt.Sprintf("%s:%d", shortFile(c.File), c.Line), c.Text)
 		}
 		// frame
-		if fc.HasModifies && (fc.ModProfile == "" || fc.ModProfile == profile) {
+		if mc := fc.Mod(profile); mc != nil {
 			if unk, why := e.hasUnknownFrame(exit, map[*baseNode]bool{}); unk {
-				e.oblig("frame", "frame:unknown-effects", fc.ModProps, exitReach, "false", "", "the function claims a frame but performs an effect with unknown frame: "+why)
+				e.oblig("frame", "frame:unknown-effects", mc.Props, exitReach, "false", "", "the function claims a frame but performs an effect with unknown frame: "+why)
 			}
 			fams := append([]string{}, e.famOrder...)
 			for _, fam := range fams {
 				g, err := x.frameGoal(post, fam)
 				if err != nil {
-					e.bindingErrorText(fn, "frame", fc.ModText, err)
+					e.bindingErrorText(fn, "frame", mc.Text, err)
 					break
 				}
 				if g == "true" {
 					continue
 				}
-				e.oblig("frame", "frame:"+fam, fc.ModProps, exitReach, g, "", "modifies "+fc.ModText+" (family "+fam+")")
+				e.oblig("frame", "frame:"+fam, mc.Props, exitReach, g, "", "modifies "+mc.Text+" (family "+fam+")")
 			}
 		}
 		// vacuity: the exit must be reachable under the preconditions and all assumptions
